@@ -72,10 +72,16 @@ def run_schedule(job, schedule, k, cache=None, event_processors=None, error_hand
     return build.observe(rt, res), ctl
 
 
-def asyncify(prog, flag=True):
+def asyncify(prog, flag=True, coro_every=3):
+    """All function nodes async (or sync).  Every `coro_every`-th async node is built as an ordinary `def`
+    that RETURNS a coroutine (e.g. an async function behind a plain decorator): the async runner awaits it
+    like an async node, although node.is_async is False."""
     import copy
     p = copy.deepcopy(prog)
+    k = 0
     for _, n in IR.all_nodes(p):
         if n["kind"] == "func":
             n["is_async"] = flag
+            k += 1
+            n["coro"] = bool(flag and coro_every and n["fn"] != "gen" and k % coro_every == 0)
     return p
